@@ -77,6 +77,10 @@ def check_invariant(res, case, sk, cfg, where):
         if fld is None or c05.has_custom(f) or sf.get("flag"):
             continue
         tag = c05.finding_tag(f, v)
+        if not tag and F.satisfies(f, c05.unproxy(v)) is False:
+            res.violate("C01:held-value-breaks-declared-constraint:" + f["k"], "a value held by the configuration breaks a constraint its field declares",
+                        dict(case, at=where, path=p, value=F.enc_val(v), field=f))
+            continue
         try:
             again = fld.validate(owner, F.unproxy(v) if hasattr(F, "unproxy") else v)
         except Exception as e:  # noqa
